@@ -23,6 +23,9 @@ var graphs = []string{
 	"[[[[[[ts1]]]]]]",
 }
 
+// linkChains: a link to a block that consists of a link (free-path harness only).
+var linkChains = []string{"[<<[tn]>>s1]", "{1<<<i>>>}"}
+
 var allRec = &selgen.Sel{Op: 'R', LimitNone: true, Subs: []*selgen.Sel{{Op: '|', Subs: []*selgen.Sel{{Op: '.'}, {Op: 'a', Subs: []*selgen.Sel{{Op: '@'}}}}}}}
 
 func compile(s *selgen.Sel) selector.Selector {
@@ -264,7 +267,10 @@ func refResolve(v *refval.V, segs []string) (*refval.V, bool) {
 
 // HFreePath: an arbitrary path: Get fails exactly when the reference resolution fails.
 func HFreePath() {
-	g := graph.New("g", graphs[nd.Choose("graph", nd.Param("G", len(graphs)))])
+	// the first G graphs of the walk harnesses plus graphs in which a link leads to a block whose
+	// root is itself a link (resolution follows links until a non-link is reached)
+	specs := append(append([]string{}, graphs[:nd.Param("G", len(graphs))]...), linkChains...)
+	g := graph.New("g", specs[nd.Choose("graph", len(specs))])
 	cfg := &traversal.Config{LinkSystem: g.LS, LinkTargetNodePrototypeChooser: graph.Chooser}
 	n := 1 + nd.Choose("nseg", nd.Param("SEGS", 3))
 	var segs []datamodel.PathSegment
